@@ -1,5 +1,8 @@
 #!/bin/sh
-# Offline setup: create cache dir and warm the Verus first-run cache.
+# Offline setup: create cache dir, warm the Verus first-run cache, and pre-build the garden
+# binary that the bounded stand-ins and the replay step run (cargo is incremental: every check
+# still rebuilds from /repo's current working tree).  Never fails: a tree that does not build
+# is reported by the checks themselves as "undecided".
 DIR="$(cd "$(dirname "$0")" && pwd)"
 mkdir -p "$DIR/.cache/gen" "$DIR/evidence"
 cat > "$DIR/.cache/gen/warm.rs" <<'EOT'
@@ -8,4 +11,7 @@ verus! { proof fn warm() ensures 1 + 1 == 2int {} }
 fn main() {}
 EOT
 (cd "$DIR/.cache/gen" && verus warm.rs >/dev/null 2>&1) || true
+REPO="${VERIF_REPO:-/repo}"
+(cd "$REPO" && CARGO_NET_OFFLINE=true CARGO_TARGET_DIR="${VERIF_TARGET_DIR:-$REPO/target}" \
+    cargo build --offline --quiet >/dev/null 2>&1) || true
 exit 0
